@@ -9,7 +9,7 @@ use std::collections::BTreeMap;
 
 use emit::{Ctxt, Props};
 use vh_common::*;
-use vh_enc::cv::{ChainErr, En, Pool, Rec, CTLS, STRS, UNIS};
+use vh_enc::cv::{ChainErr, En, Pool, Rec, CTLS, LOOKALIKES, STRS, UNIS};
 
 #[derive(Clone, Copy, PartialEq, Debug)]
 enum Step {
@@ -241,7 +241,8 @@ impl Gen for char {
 }
 impl Gen for String {
     fn gen(p: &mut Pool) -> String {
-        match p.rng.below(4) {
+        match p.rng.below(6) {
+            4 | 5 => p.pick(LOOKALIKES).to_string(),
             0 => p.pick(UNIS).to_string(),
             1 => p.pick(CTLS).to_string(),
             2 => p.string(),
